@@ -4,7 +4,7 @@ CONSTANTS
  Cap0 = 2
  NInit = 0
  NC = 3
- Budget = 2
+ Budget = 1
  NW = 2
  MaxPolls = 2
  MaxItems = 1
